@@ -275,6 +275,9 @@ func (r *Report) Finish(verifDir string, wall float64, seed int) int {
 		}
 		cov["informational"] = infos
 	}
+	if r.W.Canon != nil && (len(r.W.Canon.NewFuncs) > 0 || len(r.W.Canon.Failed) > 0) {
+		cov["canonicalisation"] = r.W.Canon
+	}
 	for k, v := range r.Extra {
 		cov[k] = v
 	}
